@@ -128,8 +128,13 @@ func c18corpus(c *mon.Ctx) []c18font {
 			// under an unknown tag, and under tags of real tables the reader
 			// has no use for (the digital signature is the usual last table
 			// of signed fonts)
-			for _, tag := range []string{"zzzz", "DSIG", "meta", "PCLT"} {
+			for _, tag := range []string{"zzzz", "DSIG", "meta", "PCLT", "prop"} {
 				raw := addTable(buf.Bytes(), tag, tail)
+				if tag == "prop" {
+					// as Apple's tools write it: scaler type 'true', the last
+					// table a multiple of four bytes long
+					raw = withScaler(addTable(buf.Bytes(), tag, tail[:40]), 0x74727565)
+				}
 				if wf, _ := sfntwalk.Walk(raw); wf != nil {
 					last := wf.Tables[0]
 					for _, t := range wf.Tables {
@@ -525,7 +530,7 @@ func runC18(c *mon.Ctx) {
 	})
 	c.Require("write-fault:Write:refuse", "write-fault:Write:short", "write-fault:WriteTrueTypePDF:short", "write-fault:WriteOpenTypeCFFPDF:short", "write-fault:cff.Font.Write:refuse",
 		"write-success:Write", "read-fault:truncated/ReaderAt", "read-fault:truncated/Reader", "read-fault:failing/ReaderAt", "read-fault:failing/Reader", "read-success:failing/ReaderAt",
-		"read-fault:generated-1-glyf+trailing-unread-table", "read-fault:generated-1-glyf+trailing-empty-table", "read-fault:generated-1-glyf+trailing-unread-table:DSIG")
+		"read-fault:generated-1-glyf+trailing-unread-table", "read-fault:generated-1-glyf+trailing-empty-table", "read-fault:generated-1-glyf+trailing-unread-table:DSIG", "read-fault:generated-1-glyf+trailing-unread-table:prop")
 	_ = cff.OpMoveTo
 }
 
